@@ -10,9 +10,27 @@ pub assume_specification [<Ordering as PartialEq>::eq] (a: &Ordering, b: &Orderi
     ensures r == (*a == *b);
 
 // ---- comparator model -----------------------------------------------------------------
-// ord(c, x, y): the answer the comparator closure gives on (x, y).
+// f describes c: c can be called on everything and every answer it can give is f's answer
+pub open spec fn describes<K, C: Fn(&K, &K) -> Ordering>(c: C, f: spec_fn(K, K) -> Ordering) -> bool {
+    &&& forall|x: &K, y: &K| call_requires(c, (x, y))
+    &&& forall|x: &K, y: &K, r: Ordering| call_ensures(c, (x, y), r) ==> r == f(*x, *y)
+}
+
+// f is a strict weak order (Equal is a congruence, Less is transitive, Less/Greater mirror each other)
+pub open spec fn order_laws<K>(f: spec_fn(K, K) -> Ordering) -> bool {
+    &&& forall|x: K, y: K| (f(x, y) == Ordering::Less) <==> (#[trigger] f(y, x) == Ordering::Greater)
+    &&& forall|x: K, y: K, z: K| #![trigger f(x, y), f(y, z)] f(x, y) == Ordering::Less && f(y, z) == Ordering::Less ==> f(x, z) == Ordering::Less
+    &&& forall|x: K, y: K, z: K| #![trigger f(x, y), f(x, z)] f(x, y) == Ordering::Equal ==> f(x, z) == f(y, z)
+}
+
+// the mathematical order a consistent comparator computes
+pub open spec fn ordf<K, C: Fn(&K, &K) -> Ordering>(c: C) -> spec_fn(K, K) -> Ordering {
+    choose|f: spec_fn(K, K) -> Ordering| describes(c, f) && order_laws(f)
+}
+
+#[verifier::opaque]
 pub open spec fn ord<K, C: Fn(&K, &K) -> Ordering>(c: C, x: K, y: K) -> Ordering {
-    choose|r: Ordering| call_ensures(c, (&x, &y), r)
+    ordf(c)(x, y)
 }
 
 // the comparator can be called on everything and is a function of its arguments
@@ -21,13 +39,28 @@ pub open spec fn cmp_callable<K, C: Fn(&K, &K) -> Ordering>(c: C) -> bool {
     &&& forall|x: &K, y: &K, r: Ordering| call_ensures(c, (x, y), r) ==> r == ord(c, *x, *y)
 }
 
-// "consistent comparator": a strict weak order (Equal is a congruence, Less is transitive,
-// Less/Greater are mirror images)
+// "consistent comparator": its answers form a strict weak order
 #[verifier::opaque]
 pub open spec fn cmp_laws<K, C: Fn(&K, &K) -> Ordering>(c: C) -> bool {
     &&& forall|x: K, y: K| (ord(c, x, y) == Ordering::Less) <==> (#[trigger] ord(c, y, x) == Ordering::Greater)
     &&& forall|x: K, y: K, z: K| ord(c, x, y) == Ordering::Less && ord(c, y, z) == Ordering::Less ==> ord(c, x, z) == Ordering::Less
     &&& forall|x: K, y: K, z: K| ord(c, x, y) == Ordering::Equal ==> ord(c, x, z) == ord(c, y, z)
+}
+
+// how a client establishes cmp_ok: exhibit the order its comparator computes
+pub proof fn lemma_cmp_ok_intro<K, C: Fn(&K, &K) -> Ordering>(c: C, f: spec_fn(K, K) -> Ordering)
+    requires describes(c, f), order_laws(f),
+    ensures cmp_callable(c), cmp_laws(c),
+{
+    reveal(ord);
+    let g = ordf(c);
+    assert(describes(c, g) && order_laws(g));
+    assert(cmp_laws(c)) by {
+        reveal(cmp_laws);
+        assert forall|x: K, y: K| (ord(c, x, y) == Ordering::Less) <==> (#[trigger] ord(c, y, x) == Ordering::Greater) by {
+            assert((g(x, y) == Ordering::Less) <==> (g(y, x) == Ordering::Greater));
+        }
+    }
 }
 
 pub open spec fn cmp_ok<K, C: Fn(&K, &K) -> Ordering>(c: C) -> bool {
